@@ -298,7 +298,33 @@ func c13DefaultIs(d any, o C13Obs, p C13Param) bool {
 		f, err := strconv.ParseFloat(vals[0], 64)
 		return err == nil && f == x
 	}
-	return true // arrays: see the recorded finding on array defaults
+	if arr, ok := d.([]any); ok {
+		// an array default: its elements, exploded or joined by a delimiter (the decoder reads it back: the
+		// re-validation oracle decides whether the form is the right one)
+		var texts []string
+		for _, e := range arr {
+			if f, isf := e.(float64); isf {
+				texts = append(texts, strconv.FormatFloat(f, 'f', -1, 64))
+			} else {
+				texts = append(texts, fmt.Sprint(e))
+			}
+		}
+		if len(vals) == len(texts) && len(texts) > 1 {
+			for i := range vals {
+				if vals[i] != texts[i] {
+					return false
+				}
+			}
+			return true
+		}
+		for _, sep := range []string{",", " ", "|"} {
+			if len(vals) == 1 && vals[0] == strings.Join(texts, sep) {
+				return true
+			}
+		}
+		return false
+	}
+	return true
 }
 
 // which kinds of parameter defaults a case has (part of the finding signature)
